@@ -34,13 +34,15 @@ pub struct Ctx {
     pub compiler: crate::compile::SubCompiler,
     /// strict = no known-finding tolerance (replays, witnesses)
     pub strict: bool,
+    /// true while a failure is being shrunk: checks should use short time bounds
+    pub shrinking: bool,
     pub tier: Tier,
     pub open_findings: BTreeSet<String>,
 }
 
 impl Ctx {
     pub fn new(node_path: &str, tier: Tier, open_findings: BTreeSet<String>) -> Ctx {
-        Ctx { node_path: node_path.to_string(), node: None, judge: None, compiler: crate::compile::SubCompiler::new(), strict: false, tier, open_findings }
+        Ctx { node_path: node_path.to_string(), node: None, judge: None, compiler: crate::compile::SubCompiler::new(), strict: false, shrinking: false, tier, open_findings }
     }
     pub fn node(&mut self, req: Value) -> Result<Value, WorkerError> {
         // restart the worker now and then: Node never frees imported modules
@@ -260,6 +262,7 @@ pub fn run_random(check: Arc<dyn Check>, tier: Tier, seed: u64, node_path: &str,
                     }
                     let mut s = Src::new(&data);
                     let case = check.generate(&mut s, tier);
+                    ctxc.borrow_mut().shrinking = failed.get();
                     let out = check.exec(&case, &mut ctxc.borrow_mut());
                     if let Some(i) = &out.infra {
                         stats.borrow_mut().infra = Some(i.clone());
@@ -281,7 +284,10 @@ pub fn run_random(check: Arc<dyn Check>, tier: Tier, seed: u64, node_path: &str,
                     // same root-cause signature so that the search never slides into a different failure.
                     let sig = reason.message().to_string();
                     let ctx: &mut Ctx = &mut ctxc.borrow_mut();
-                    let minimal = shrink_stream(check.as_ref(), ctx, tier, minimal, &sig, 500);
+                    ctx.shrinking = true;
+                    let budget = if sig.contains("hang") { 40 } else { 500 };
+                    let minimal = shrink_stream(check.as_ref(), ctx, tier, minimal, &sig, budget);
+                    ctx.shrinking = false;
                     // re-run the shrunk case to get the final observation
                     let mut s = Src::new(&minimal);
                     let case = check.generate(&mut s, tier);
